@@ -144,6 +144,7 @@ def try_replay(prop, v, P, REG, repo):
         "oracle": meta.get("oracle"),
         "setup": meta.get("setup"),
     }
+    req["function"] = v["function"].split("#")[0]
     obs = run_real(repo, req)
     name = v["obligation"].split("/", 1)[1] if "/" in v["obligation"] else v["obligation"]
     confirmed = False
@@ -151,6 +152,11 @@ def try_replay(prop, v, P, REG, repo):
     allowed = meta.get("allowed")
     if obs.get("kind") == "harness-error":
         return False, {"request": req, "observation": obs}
+    expected = inputs.get("expected")
+    if expected is not None and obs.get("kind") == "return" and (name.endswith("post.result") or name.endswith("reach")) and not same_value(obs.get("value"), expected):
+        return True, {"request": req, "observation": obs, "expected": expected, "judgement": "the real code returns a value different from the specified one"}
+    if expected is not None and obs.get("kind") == "raise" and (name.endswith("post.result") or name.endswith("reach")) and allowed is not None and not (set(obs.get("mro", [])) & set(allowed)):
+        return True, {"request": req, "observation": obs, "expected": expected, "judgement": f"{obs['type']} on the real code where the contract specifies a value"}
     if obs.get("oracle"):
         confirmed, why = True, f"oracle: {obs['oracle']}"
     elif obs.get("kind") == "budget":
@@ -164,6 +170,33 @@ def try_replay(prop, v, P, REG, repo):
     elif obs.get("kind") == "raise" and allowed is not None and not (set(obs.get("mro", [])) & set(allowed)):
         confirmed, why = True, f"{obs['type']} escaped on the real code"
     return confirmed, {"request": req, "observation": obs, "judgement": why or "the observed behaviour does not by itself contradict the clause"}
+
+
+def same_value(a, b):
+    """Structural comparison of replay.describe() output with replay_driver.concretize() output."""
+    if isinstance(a, dict) and isinstance(b, dict):
+        ta, tb = a.get("__t__"), b.get("__t__")
+        if ta in ("bytes", "bytearray", "memoryview") and tb in ("bytes", "bytearray", "memoryview"):
+            return a.get("hex") == b.get("hex")
+        if ta != tb:
+            if tb in ("list", "tuple"):
+                return False
+            return False
+        if ta == "obj":
+            if a.get("cls") != b.get("cls"):
+                return False
+            fa, fb = a.get("fields", {}), b.get("fields", {})
+            return all(same_value(fa.get(k), v) for k, v in fb.items())
+        if ta == "enum":
+            return same_value(a.get("value"), b.get("value"))
+        if ta == "uuid":
+            return a.get("hex") == b.get("hex")
+        return a == b
+    if isinstance(a, list) and isinstance(b, dict) and b.get("__t__") in ("list", "tuple"):
+        return len(a) == len(b["items"]) and all(same_value(x, y) for x, y in zip(a, b["items"]))
+    if isinstance(a, dict) and a.get("__t__") == "enum" and not isinstance(b, dict):
+        return a.get("value") == b
+    return a == b
 
 
 def rerun(path, repo):
